@@ -1098,15 +1098,17 @@ Definition nullsafe (s : schema) : Prop := s_all_of s = [] /\ s_any_of s = [] /\
 (* a format next to a numeric type is harmless; elsewhere the string / array shortcut of the type validator (type.go:200, finding
    class type-format-shortcut) accepts every string and every array: the value this level is applied to must then be one the type
    list accepts anyway.  This is the one condition that depends on the value: it is asked of every (sub-schema, part of the value)
-   pair the validation visits ([app_g] and the composition members), see Schema/AgreementRec.v *)
+   pair the validation visits ([app_g] and the composition members), see Schema/AgreementRec.v.
+   The same goes for null: a null value is looked at by the type and the enumeration only, the composition keywords are skipped
+   (finding class nil-under-composition): a schema that meets a null must have none. *)
 Definition fmt_fits (s : schema) (d : goval) : Prop :=
-  s_format s = 0 \/ contains k_number (s_types s) || contains k_integer (s_types s) = true \/
-  (contains k_number (s_types s) || contains k_integer (s_types s) = false /\ s_types s <> [] /\
-   ((exists x, d = VStr x) -> contains k_string (s_types s) = true) /\
-   ((exists id l, d = VArr id l) -> contains k_array (s_types s) = true)).
+  (s_format s = 0 \/ contains k_number (s_types s) || contains k_integer (s_types s) = true \/
+   (contains k_number (s_types s) || contains k_integer (s_types s) = false /\ s_types s <> [] /\
+    ((exists x, d = VStr x) -> contains k_string (s_types s) = true) /\
+    ((exists id l, d = VArr id l) -> contains k_array (s_types s) = true))) /\
+  (d = VNil -> nullsafe s).
 
 Definition local_clean0 (s : schema) : Prop :=
-  (allow_null = true -> nullsafe s) /\
   s_ref s = None /\
   s_nullable s = false /\ Forall jde (s_enum s) /\
   (s_pattern s = 0 \/ o_re_ok OR (s_pattern s) = true) /\
@@ -1115,13 +1117,15 @@ Definition local_clean0 (s : schema) : Prop :=
 (* a sufficient condition on the schema alone: the type list next to a non-numeric format accepts strings - and arrays, when the
    data class admits arrays *)
 Definition fmt_clean (s : schema) : Prop :=
-  s_format s = 0 \/ contains k_number (s_types s) || contains k_integer (s_types s) = true \/
-  (contains k_number (s_types s) || contains k_integer (s_types s) = false /\ contains k_string (s_types s) = true /\
-   (allow_arr = true -> contains k_array (s_types s) = true)).
+  (s_format s = 0 \/ contains k_number (s_types s) || contains k_integer (s_types s) = true \/
+   (contains k_number (s_types s) || contains k_integer (s_types s) = false /\ contains k_string (s_types s) = true /\
+    (allow_arr = true -> contains k_array (s_types s) = true))) /\
+  (allow_null = true -> nullsafe s).
 
 Lemma fmt_clean_fits s d : fmt_clean s -> jd d -> fmt_fits s d.
 Proof.
-  intros [H | [H | [H1 [H2 H3]]]] Hd; [left; exact H | right; left; exact H | right; right].
+  intros [HF HN] Hd. split; [|intros E; subst d; apply HN; exact Hd].
+  destruct HF as [H | [H | [H1 [H2 H3]]]]; [left; exact H | right; left; exact H | right; right].
   split; [exact H1|]. split; [intros E; rewrite E in H2; discriminate|]. split; [intros _; exact H2|].
   intros [id [l E]]. subst d. apply jd_arr in Hd. destruct Hd as [Ha _]. apply H3. exact Ha.
 Qed.
@@ -1135,7 +1139,7 @@ Lemma body_agree s p q d : local_clean0 s -> fmt_fits s d -> kids2 goods goodu s
   (forall c, In c (uk s) -> Du c d) -> (forall c v, app_g s d c v -> Ds c v) ->
   exists r, sv_body OR N opt rec_sp s p q d = Ok r /\ d4_body OR N recd s d = Some (r_valid r).
 Proof.
-  intros [Hns [_ [Hnull [Henum [Hpat [Harr [Hobj [Hcomp Hbf]]]]]]]] Hfmt K Hd HDu Hg.
+  intros [_ [Hnull [Henum [Hpat [Harr [Hobj [Hcomp Hbf]]]]]]] [Hfmt Hns] K Hd HDu Hg.
   pose proof (enum_agree p s d Hd Henum) as He.
   destruct (props_agree p s d K Hcomp Hd HDu) as [x2 [bc [Hx2 [Hc Hvx2]]]].
   unfold sv_body, d4_body. rewrite Hnull in *. rewrite Hc.
@@ -1155,7 +1159,7 @@ Proof.
       rewrite Ha, r_valid_inc, r_valid_merge, Hr0. reflexivity. }
   destruct d as [|b|x|d32 f| | |id l| |id m]; try (exfalso; exact Hd).
   - (* null: only the type and the enumeration are looked at; the schema has no composition keyword *)
-    cbn [jd] in Hd. destruct (Hns Hd) as [Hao [Hany [Hone Hnot]]].
+    destruct (Hns eq_refl) as [Hao [Hany [Hone Hnot]]].
     assert (Hx2v : bc = true).
     { unfold composition_ok in Hc. rewrite Hao, Hany, Hnot, Hone in Hc. cbn in Hc. inversion Hc. reflexivity. }
     assert (Htn : r_valid (type_validate N p (s_types s) false (s_format s) VNil) = type_ok N s VNil).
@@ -1236,7 +1240,7 @@ Fixpoint clean (n : nat) (s : schema) {struct n} : Prop :=
 
 Lemma clean_bounded : forall n s, clean n s -> bounded n s.
 Proof.
-  induction n as [|n IH]; intros s H; [exact H|]. destruct H as [[[_ [Href _]] _] K]. split; [exact Href|].
+  induction n as [|n IH]; intros s H; [exact H|]. destruct H as [[[Href _] _] K]. split; [exact Href|].
   eapply kids_impl; [|exact K]. exact (IH).
 Qed.
 
@@ -1244,7 +1248,7 @@ Theorem clean_fragment_agrees : forall n fuel s, clean n s -> (n < fuel)%nat -> 
   exists r, sv_validate OR N opt defs fuel s p q d = Ok r /\ d4 OR N defs fuel s d = Some (r_valid r).
 Proof.
   induction n as [|n IH]; intros fuel s Hc Hlt p q d Hd; [destruct Hc|]. destruct fuel as [|f]; [lia|].
-  pose proof (clean_bounded (S n) s Hc) as Hb. destruct Hc as [[Hl Hf] K]. pose proof Hl as [_ [Href _]].
+  pose proof (clean_bounded (S n) s Hc) as Hb. destruct Hc as [[Hl Hf] K]. pose proof Hl as [Href _].
   cbn [sv_validate d4]. rewrite (eager_bounded defs (S n) f s Hb); [|lia]. cbn [bind].
   rewrite (resolve_ref_free defs f s Href). cbn [bind]. rewrite Href.
   apply (body_agree OR N opt Hopt_items Hopt_array Hord Heq_sym (sv_validate OR N opt defs f) (d4 OR N defs f)
